@@ -690,6 +690,7 @@ class P(Prop):
     id = "C02"
     design_ref = "DESIGN.md section 5, C02 and appendix A.1"
     M = "TracklibVerif.Props.C02"
+    MA = "TracklibVerif.Props.C02Agg"
     theorems = [
         (M, "TV.C02.makeRPN_show", "T2: with makeRPN's real precedence table the right-to-left depth-0 scan returns the postfix form of every tree printed with the parentheses required by precedence and left associativity (and any redundant ones)"),
         (M, "TV.C02.evalRPN_postfix", "T1: the stack machine on the postfix form of a tree computes the tree semantics and leaves exactly the temporaries #k.. it created, appended to the table; nothing else changes"),
@@ -731,6 +732,13 @@ class P(Prop):
         (M, "TV.C02.operate_source_prime", "T11: from the source string, the ' shorthand: operate on 'lhs=e' / 'e' whose names may end with a quote does what it does on the postfix tokens of the tree with every a' replaced by D{a}/D{t} (__double_prime: two passes)"),
         (M, "TV.C02.operate_source_sign_pair", "T12: a sign directly after a binary + or - ('a+-b', 'a--b', 'a++b', 'a-+b'): typing two signs in place of the binary sign they multiply to does not change what operate does (one pair per application)"),
         (M, "TV.C02.operate_source_prime_value", "T11': operate(src e) with the ' shorthand returns the tree semantics of the unprimed tree at every observation and leaves the track exactly as it was"),
+        (MA, "TV.C02.aggregate_sum_avg", "T13: SUM / AVG as coded (NaN skipped) are the sum and sum/count of the non-NaN observations; AVG of no number is ZeroDivisionError (exact arithmetic: FieldModel over an ordered field)"),
+        (MA, "TV.C02.aggregate_var_mse", "T13': VAR / MSE as coded are sum((x-mean)^2)/count (population variance, mean = AVG) and sum(x^2)/count over the non-NaN observations; STD / RMSE are math.sqrt of them (exact arithmetic; math.sqrt a parameter)"),
+        (MA, "TV.C02.aggregate_median", "T14: MEDIAN as coded (np.argsort order, NaN last and counted in N; ranks N//2 resp. int(N/2-1), int(N/2)) is the value of rank N/2 among the numbers for odd N and the mean of the values of ranks N/2-1, N/2 for even N, whenever rank N/2 falls on a number; 'value of rank k' stated without sorting (at most k numbers below it, more than k below or equal)"),
+        (MA, "TV.C02.median_rank_of_noNaN", "T14 hypothesis: on a non-empty vector without NaN every rank falls on a number"),
+        (MA, "TV.C02.order_statistic_unique", "the value of rank k of a list is unique (so T14 / T14' determine MEDIAN / MAD)"),
+        (MA, "TV.C02.aggregate_mad", "T14': MAD as coded (NaN skipped, absolute values, central rank N//2 since fix 56ef03e resp. the mean of ranks N/2-1, N/2) is the median of |x| over the non-NaN observations"),
+        (MA, "TV.C02.median_index_arithmetic", "T14'': for even N >= 2 Python's (int)(N/2 - 1) and (int)(N/2) (true division, truncation) are the integer ranks N/2-1 and N/2 of the model"),
     ]
     partial = []
     open_statements = [
